@@ -211,6 +211,13 @@ func dumpFunc(p *Prog, fn *ssa.Function) {
 				fmt.Printf("  call %s#%d  block %d %s\n", k, ord[k], b.Index, p.fset.Position(ins.Pos()))
 				ord[k]++
 			}
+			if st, ok := ins.(*ssa.Store); ok {
+				switch st.Addr.(type) {
+				case *ssa.IndexAddr, *ssa.FieldAddr:
+					fmt.Printf("  store#%d  block %d %s  %s\n", ord["$store"], b.Index, p.fset.Position(ins.Pos()), describe(st.Addr, 0))
+					ord["$store"]++
+				}
+			}
 		}
 	}
 	fn.WriteTo(os.Stdout)
